@@ -209,6 +209,10 @@ def faceFlux (g : Grid) (f : Nat) (p bc : Nat → Rat) : Rat :=
 def facePressure (g : Grid) (f : Nat) (p bc : Nat → Rat) : Rat :=
   rowApply (bpCellT g) f p + rowApply (bpFaceT g) f bc
 
+/-- the cell-wise constant vector `G` as a vector-source array (`vsd` entries per cell, cell-major:
+    what `vector_source` / `bound_pressure_vector_source` are multiplied with) -/
+def vsVec (vsd : Nat) (G : V3) : Nat → Rat := fun j => G.get (j % vsd)
+
 /-- net outflow of cell `c` for face fluxes `F`: row `c` of `cell_facesᵀ * F` -/
 def divApply : List HF → Nat → (Nat → Rat) → Rat
   | [], _, _ => 0
